@@ -5,7 +5,7 @@ from mc import history
 
 PROPERTY = "C18"
 RULE = (
-    "BFS to depth 3 over histories of fit(D)/transform(D)/fit_transform(D) (3 data sets each) on REAL "
+    "BFS to depth 3 over histories of fit(D)/transform(D)/fit_transform(D) (3-4 data sets each, one collection holding the same array object several times) on REAL "
     "estimators: PersistenceImager() / (pixel_size=0.5) / user kernel; PersistenceLandscaper(num_steps=5) "
     "with none / start / stop / both fixed by the user, and (flatten=True, hom_deg=1). Every transition "
     "is compared with a fresh estimator replaying the same history: transform repeatable and state-"
@@ -24,6 +24,8 @@ IMG_DATA = {
     "I1": [[[0.0, 1.0], [0.5, 1.2]]],
     "I2": [[[0.0, 2.0], [1.0, 1.5]], [[-0.25, 0.5], [0.75, 1.0]]],
     "I3": [[[0.1, 0.4]], [[0.3, 1.0], [0.2, 0.9], [0.2, 0.9]], [[0.0, 3.0], [2.0, 2.5]]],
+    # a collection in which the SAME array object occurs several times (bootstrap resample, [d] * 3)
+    "I4": {"diagrams": [[[0.5, 1.5], [1.0, 1.25]], [[0.25, 2.0]]], "pattern": [0, 1, 0, 0]},
 }
 LS_DATA = {
     "L1": [[[0.0, 3.0], [1.0, 4.0]], [[1.0, 4.0]]],
@@ -51,7 +53,7 @@ ESTIMATORS = [
 
 
 def bounds(tier):
-    return {"estimators": len(ESTIMATORS), "ops_per_estimator": 9, "depth": 3 if tier == "quick" else 4}
+    return {"estimators": len(ESTIMATORS), "ops_per_estimator": "3 x data sets (imager 4 incl. an aliased collection, landscaper 3)", "depth": 3 if tier == "quick" else 4}
 
 
 def make(init):
@@ -67,7 +69,11 @@ def make(init):
 
 def data_for(init, key):
     if init["cls"] == "imager":
-        d = [np.array(x, dtype=float) for x in IMG_DATA[key]]
+        spec = IMG_DATA[key]
+        if isinstance(spec, dict):
+            base = [np.array(x, dtype=float) for x in spec["diagrams"]]
+            return [base[i] for i in spec["pattern"]]
+        d = [np.array(x, dtype=float) for x in spec]
         return d[0] if len(d) == 1 else d
     return [np.array(x, dtype=float) for x in LS_DATA[key]]
 
@@ -246,7 +252,7 @@ class _M:
 def run_shard(ctx):
     depth = 3 if ctx.tier == "quick" else 4
     # shard = (estimator, first operation): the BFS below a first operation is independent of the others
-    jobs = [(e, f) for e in range(len(ESTIMATORS)) for f in range(9)]
+    jobs = [(e, f) for e in range(len(ESTIMATORS)) for f in range(len(ops_for(ESTIMATORS[e])))]
     for jx, (e, f) in enumerate(jobs):
         if jx % ctx.nshards != ctx.shard:
             continue
